@@ -5,7 +5,9 @@ Relational: tokenizer::tokenize is executed by path forking on *pairs* of relate
 ignored): (1) deleting a comment up to, but excluding, its line break (empty comments, comments ending
 in a multi-byte character, comments at end of file); (2) inserting a space, tab, CR or non-ASCII blank
 at a token boundary or at either end; (3) turning one line break into two or three; (4) replacing a
-line break that produced a terminator by `;` (terminator kind ignored); (5) for all 28x28 pairs of
+line break that produced a terminator by `;` (terminator kind ignored); (6) longer texts over a
+layout-focused alphabet (brackets, separators, one-character tokens before `token line-break token`)
+against the reference lexer: the rule must not depend on context; (5) for all 28x28 pairs of
 token kinds (canonical lexemes): a line break between them yields a terminator iff the first can
 end and the second can start an expression, `;` counting as both -- the two sets being LAST/FIRST
 of `term` computed from /repo/grammar.y at run time."""
@@ -260,7 +262,10 @@ def handle(H, records, cap=3):
         if seen.get(lab, 0) >= cap:
             continue
         seen[lab] = seen.get(lab, 0) + 1
-        reproduced, detail = confirm(H, label, case)
+        if "changed" not in case and "without" not in case:
+            reproduced, detail = c09.confirm(H, label, case)      # L6: a single text against the reference lexer
+        else:
+            reproduced, detail = confirm(H, label, case)
         H.report(label, case, reproduced, detail)
 
 
@@ -279,6 +284,20 @@ def main():
     parts = [("comment deletion, pre=%d body=%d post=%d characters" % s, make_comment(H, *s)) for s in shapes]
     for n in ([2, 3] if quick else [2, 3, 4]):
         parts.append(("blank insertion / line-break doubling / ';' for line break on texts of %d characters" % n, make_insertions(H, n)))
+    # (6) the line-break rule does not depend on what came before: longer texts over a layout-focused
+    # alphabet (brackets, separators, one-character tokens) around a line break, against the
+    # reference lexer of C09 (added after S-C10-02: a tokenizer that counts open parentheses)
+    first, last = c09.first_last()
+    ctx = [ord(c) for c in "(){} ;\n="]
+    tok = [ord(c) for c in "x1+()=-}"]
+    fams = [("2 context characters, token, line break, token", [ctx, ctx, tok, [10], tok])]
+    if quick:
+        fams.append(("3 bracket characters, token, line break, token", [[ord(c) for c in "(){}"]] * 3 + [[ord(c) for c in "x+)("], [10], [ord(c) for c in "x+)("]]))
+    else:
+        fams.append(("3 context characters, token, line break, token", [ctx, ctx, ctx, tok, [10], tok]))
+        fams.append(("2 context characters, token, comment, line break, token", [ctx, ctx, tok, [35], [ord("c"), 0xE9, 32], [10], tok]))
+    for fname, al in fams:
+        parts.append(("L6 context independence of the line-break rule: " + fname, c09.make_factory(H, len(al), first, last, alphabets=al)))
     for name, mk in parts:
         t0 = time.time()
         m = parallel_explore(mk, H.jobs)
